@@ -14,6 +14,7 @@ harness! {
         let r = ja_reg(h);
         vcover!(r.is_some());
         vcover!(r.is_none());
+        if h < 0x840000 || h >= 0x840000 + 229_840 { vassert!(r.is_none(), "no JA registration outside the 10 x 22 984 addresses of the scheme"); }
         if let Some(reg) = &r {
             let b = reg.as_bytes();
             vassert!(b.len() == 6 && b[0] == b'J' && b[1] == b'A', "JA + 4 characters");
@@ -54,6 +55,9 @@ harness! {
         vcover!(r.is_some());
         vcover!(r.is_none());
         if r.is_some() { vassert!(country_tag(h) == 1, "N registrations only inside the United States block"); }
+        // there are exactly 915 399 N-numbers (N1 .. N99999, N1A .. N9999Z, N1AA .. N999ZZ), allocated
+        // consecutively from a00001: one address more or less at either end duplicates or loses a registration
+        vassert!(r.is_some() == (h >= 0xA00001 && h <= 0xA00001 + 915_398), "N-number answers exactly on the 915 399 addresses of the scheme");
         core::mem::forget(r);
     }
 }
